@@ -442,14 +442,33 @@ fn list_inhabited(
                 }
             }
 
-            // A longer list can escape this negative through one more element that is in the
+            // A longer list can escape this negative through a later element that is in the
             // rest type but not in the negative's rest type; the remaining negatives still apply to it.
+            // That element may sit at any position from `len` on. Positions beyond the longest prefix of
+            // the remaining negatives are interchangeable, so every position up to that one is tried.
             let diff = items.diff(&nt.items)?;
             if let IsEmptyStatus::NotEmpty = diff.is_empty_status(builder)? {
+                let mut longest = len;
+                let mut p = neg.next.clone();
+                while let Some(n) = p {
+                    let other = match n.atom {
+                        Atom::List(a) => builder.get_list_atomic(a),
+                        Atom::Set(a) => builder.get_set_atomic(a),
+                        _ => unreachable!(),
+                    };
+                    longest = std::cmp::max(longest, other.prefix_items.len());
+                    p = n.next.clone();
+                }
                 let mut s = prefix_items.clone();
-                s.push(diff);
-                if let ListInhabited::Yes = list_inhabited(&mut s, items, &neg.next, builder)? {
-                    return Ok(ListInhabited::Yes);
+                for _j in len..=longest {
+                    let mut escaping = s.clone();
+                    escaping.push(diff.clone());
+                    if let ListInhabited::Yes =
+                        list_inhabited(&mut escaping, items, &neg.next, builder)?
+                    {
+                        return Ok(ListInhabited::Yes);
+                    }
+                    s.push(items.clone());
                 }
             }
 
